@@ -506,6 +506,9 @@ pub struct Iteration {
     pub abandoned_forward: Option<T<f64>>,
     /// a forward call on another batch (say, a validation batch) made between this iteration's backward and update
     pub late_forward: Option<T<f64>>,
+    /// `backward(target)` once more AFTER the update, on the forward pass of this iteration (the graph of the replaced
+    /// parameters): returns this iteration's loss again and leaves the new parameters alone
+    pub late_backward: bool,
     /// before this iteration the model object is dropped, the layers are edited through Layer::parameters() and a new
     /// Model is built over the same layers
     pub rebuild: Option<Rebuild>,
@@ -521,11 +524,13 @@ pub struct Rebuild {
 }
 impl Iteration {
     pub fn plain(input: T<f64>, target: T<f64>, double_backward: bool) -> Iteration {
-        Iteration { input, target, double_backward, abandoned_forward: None, late_forward: None, rebuild: None }
+        Iteration { input, target, double_backward, abandoned_forward: None, late_forward: None, late_backward: false, rebuild: None }
     }
 }
 
 pub struct TrainRun {
+    /// (iteration, value returned by a backward call made after that iteration's update)
+    pub late_losses: Vec<(usize, f64)>,
     pub events: Vec<Ev>,
     pub losses: Vec<f64>,
     pub outputs: Vec<Obs>,
@@ -537,6 +542,7 @@ pub struct TrainRun {
 /// Run the forward / backward / update loop of a real `Model` built from spied layers and a spied optimizer.
 pub fn train_spied(spec: &NetSpec, params: &[T<f64>], iterations: &[Iteration], keep_handles: bool) -> Result<TrainRun, String> {
     let events: Events = Rc::new(RefCell::new(vec![]));
+    let late_losses: Rc<RefCell<Vec<(usize, f64)>>> = Rc::new(RefCell::new(vec![]));
     let kept: Kept = Rc::new(RefCell::new(vec![]));
     let res = guard(|| {
         let acts = Acts::new();
@@ -612,6 +618,10 @@ pub fn train_spied(spec: &NetSpec, params: &[T<f64>], iterations: &[Iteration], 
                     events.borrow_mut().truncate(n0);
                 }
                 model.update();
+                if it.late_backward && it.late_forward.is_none() {
+                    let l2 = model.backward(arr_t(&it.target));
+                    late_losses.borrow_mut().push((i, l2 as f64));
+                }
                 i += 1;
                 if i >= iterations.len() || iterations[i].rebuild.is_some() {
                     break;
@@ -623,7 +633,8 @@ pub fn train_spied(spec: &NetSpec, params: &[T<f64>], iterations: &[Iteration], 
     let (losses, outputs, output_tracked) = res?;
     let ev = events.borrow().clone();
     let k = std::mem::take(&mut *kept.borrow_mut());
-    Ok(TrainRun { events: ev, losses, outputs, output_tracked, kept: k })
+    let ll = late_losses.borrow().clone();
+    Ok(TrainRun { late_losses: ll, events: ev, losses, outputs, output_tracked, kept: k })
 }
 
 pub struct TrainLedger {
